@@ -101,7 +101,9 @@ def _mask(d):
 
 def _problems(case, nb=NB):
   """Expands a case into `nb` problems (A, B, c, s, G, u0), each embedded in dimension D."""
-  rng = np.random.default_rng(int(case['seed']))
+  # the integrator name enters the stream so that the per-integrator sub-checks see different problems
+  tag = (ONE_STEP + ['semi_implicit_leapfrog']).index(case['integrator']) + 1 if 'integrator' in case else 0
+  rng = np.random.default_rng([int(case['seed']), tag])
   d, amp = int(case['dim']), float(case['amp'])
   m = _mask(d)
   m2 = m[:, None] * m[None, :]
@@ -152,8 +154,8 @@ def _problem_detail(params, i, d):
 # are the classes the statement distinguishes, so they get most of the weight
 _KINDS = [('nonlinear', 'general'), ('nonlinear', 'zero'), ('linear', 'zero'), ('nonlinear', 'general'),
           ('nonlinear', 'zero'), ('linear', 'zero'), ('linear', 'general'), ('nonlinear', 'skew'),
-          ('nonlinear', 'negdef'), ('nonlinear', 'general'), ('linear', 'commuting'), ('zero', 'general'),
-          ('zero', 'negdef')]
+          ('nonlinear', 'negdef'), ('nonlinear', 'skew'), ('nonlinear', 'negdef'), ('linear', 'commuting'),
+          ('zero', 'general'), ('zero', 'negdef'), ('zero', 'skew')]
 _DIMS = [1, 2, 3, 4, 2, 3, 4, 4]
 
 
@@ -437,7 +439,8 @@ def _stab_case(draw):
   return {'integrators': draw(_integrator_lists()), 'points': [list(p) for p in pts],
           'bulk': draw(st.sampled_from([False, True, True, True])), 'bulk_seed': draw(st.integers(0, 10**6)),
           'log10_h': draw(st.sampled_from([0.0, 0.0, -3.0, -1.0, 2.0, 3.0])),
-          'alpha': draw(st.one_of(st.sampled_from([0.5, 0.5, 1.0]), st.floats(0.5, 1.0).map(lambda x: round(x, 3))))}
+          'alpha': draw(st.one_of(st.sampled_from([0.5, 1.0, 0.5, 1.0, 0.75, 0.6, 0.9]),
+                                  st.floats(0.5, 1.0).map(lambda x: round(x, 3))))}
 
 
 def _z_from(lm, ang):
@@ -641,7 +644,7 @@ def _order_sub(name, ex_q, ex_t, weight):
   return Subcheck(f'order_{SHORT[name]}', functools.partial(_run_order, name),
                   strategy=lambda tier, name=name: _order_case(name),
                   examples={'quick': ex_q, 'thorough': ex_t}, shards={'quick': 1, 'thorough': 2},
-                  wall={'quick': 900.0, 'thorough': 3000.0}, weight=weight,
+                  wall={'quick': 300.0, 'thorough': 2400.0}, weight=weight,
                   rule='non-trivial = F != 0, G != 0 and [G, DF] != 0 for some problem of the case',
                   doc=f'{name}: Taylor coefficients of one step == exact flow through the design order')
 
@@ -654,20 +657,20 @@ SUBCHECKS = [
     _order_sub('backward_forward_euler', 60, 1500, 3),
     Subcheck('order_leapfrog', run_order_leapfrog, strategy=lambda tier: _leapfrog_order_case(),
              examples={'quick': 60, 'thorough': 1500}, shards={'quick': 1, 'thorough': 2},
-             wall={'quick': 900.0, 'thorough': 3000.0}, weight=5,
+             wall={'quick': 300.0, 'thorough': 2400.0}, weight=5,
              rule='non-trivial = F != 0, G != 0 and non-commuting',
              doc='leapfrog with exact u(-h), u(0): u(h) through h^2 (alpha = 1/2) / h^1 (otherwise)'),
     Subcheck('reductions', run_reduction, strategy=lambda tier: _reduction_case(),
              examples={'quick': 60, 'thorough': 1500}, shards={'quick': 2, 'thorough': 6},
-             wall={'quick': 900.0, 'thorough': 3000.0}, weight=4,
+             wall={'quick': 300.0, 'thorough': 2400.0}, weight=4,
              rule='non-trivial = step size h >= 0.05 (a finite step, far from the Taylor regime)',
              doc='F=0 -> implicit method (CN products / backward Euler / DIRK), G=0 -> explicit RK in Butcher form'),
     Subcheck('stiff_stability', run_stability, strategy=lambda tier: _stab_case(),
              examples={'quick': 60, 'thorough': 2000}, shards={'quick': 1, 'thorough': 8},
-             wall={'quick': 900.0, 'thorough': 3000.0}, weight=3,
+             wall={'quick': 300.0, 'thorough': 2400.0}, weight=3,
              rule='non-trivial = the case contains z with |z| > 100',
              doc='|R(z)| <= 1 + 1e-12 on the closed left half-plane, R == closed form; leapfrog spectral radius'),
-    Subcheck('length_validation', run_lengths, cases=_length_cases, weight=1, wall={'quick': 900.0, 'thorough': 3000.0},
+    Subcheck('length_validation', run_lengths, cases=_length_cases, weight=1, wall={'quick': 300.0, 'thorough': 2400.0},
              rule='non-trivial = the group contains at least one inconsistent combination',
              doc='exhaustive lengths 0..6: ValueError iff inconsistent; consistent ones construct and step'),
 ]
